@@ -83,8 +83,16 @@ impl WaitGroup {
 
     // Slow path: Wait for notification.
     loop {
-      // Wait until notified. notified() consumes a permit.
-      self.notify_on_zero.notified().await;
+      // Register as a waiter *before* re-checking the count: `done()` wakes with
+      // `notify_waiters()`, which stores no permit, so a `done()` landing between the
+      // check and the registration would otherwise be lost.
+      let notified = self.notify_on_zero.notified();
+      tokio::pin!(notified);
+      notified.as_mut().enable();
+      if self.count.load(Ordering::Acquire) == 0 {
+        return;
+      }
+      notified.await;
 
       // Check count again after notification (spurious wakeup or race check).
       if self.count.load(Ordering::Acquire) == 0 {
